@@ -2,7 +2,7 @@
    both generic wire values (Base/Sx.v).  A request is (op arg ...). *)
 From Coq Require Import ZArith List Bool.
 From Mistletoe Require Import Base.Sx Base.PyStr Model.SpanTokenizer Model.Tree Model.TreeWire
-  Model.HtmlRenderer Spec.HtmlSpec Model.LatexRenderer Spec.LatexSpec Model.Contrib Model.DocLines Model.MarkdownRenderer Re.ReMatch Gen.GenRegex Gen.GenConfig Model.CoreTokens Model.Inline Model.Unescape Model.Block Model.Build Model.Parser Spec.Delims Model.Traverse Proofs.Shape.
+  Model.HtmlRenderer Spec.HtmlSpec Model.LatexRenderer Spec.LatexSpec Model.Contrib Model.DocLines Model.MarkdownRenderer Re.ReMatch Gen.GenRegex Gen.GenConfig Model.CoreTokens Model.Inline Model.Unescape Model.Block Model.Build Model.Parser Spec.Delims Model.Traverse Proofs.Shape Proofs.Independence Proofs.Independence2 Proofs.ClosedLast.
 Import ListNotations.
 Local Open Scope Z_scope.
 
@@ -151,6 +151,19 @@ Definition op_markdown_html (req : sx) : sx :=
   sx_of_str (markdown_html (mkHopts (bool_of_sx (sx_nth req 2)) (bool_of_sx (sx_nth req 3)))
                            (negb (Z.eqb (z_of_sx (sx_nth req 1)) 1)) (str_of_sx (sx_nth req 4))).
 
+(* ---- C05 : (50 cfg textA) -> the hypotheses of the independence theorems, evaluated on A:
+        (stable_run4, closed_last, stable_run3, closed_run) ---- *)
+Definition op_c05_flags (req : sx) : sx :=
+  let cfg := pcfg_of (z_of_sx (sx_nth req 1)) in
+  let A := doc_lines_of_str (str_of_sx (sx_nth req 2)) in
+  let f := depth_fuel A in
+  let rec := tokenize_block (cfg_block cfg) f in
+  let b2z := fun (b : bool) => SxZ (if b then 1 else 0) in
+  SxL [b2z (stable_run4 (cfg_block cfg) rec (S (length A)) A 1 (mkPs true));
+       b2z (closed_last (entries (tokenize_block (cfg_block cfg) (S f) A 1 (mkPs true))));
+       b2z (stable_run3 (cfg_block cfg) rec (S (length A)) A 1 (mkPs true));
+       b2z (closed_run (cfg_block cfg) rec (S (length A)) A 1 (mkPs true))].
+
 (* ---- C06 : (60 text) -> specification algorithm's rendering ---- *)
 Definition op_spec_emph (req : sx) : sx := sx_of_str (spec_emphasis (str_of_sx (sx_nth req 1))).
 
@@ -183,6 +196,7 @@ Definition dispatch (req : sx) : sx :=
   | 120 => op_wf_shape req
   | 60 => op_spec_emph req
   | 40 => op_doc req
+  | 50 => op_c05_flags req
   | 41 => op_markdown_html req
   | 31 => op_inline req
   | 32 => op_unescape req
